@@ -248,6 +248,7 @@ VALUE_POOL = [
     ["a", "b", "c"], {"a": ["b", "c"]}, {"a": {"type": "integer"}, "b": {"type": "integer"}},
     [{"type": "integer"}, {"type": "integer"}, {"type": "integer"}], {"type": "integer", "minimum": 5},
     [{}, {"type": "integer"}], [True, {"type": "integer"}], ["string", {"type": "integer", "minimum": 5}],
+    [{"type": "string"}, "integer"], [{"minimum": 1}, "string", {"type": "null"}], [{"properties": {"a": {"minimum": 5}}}, "string", {"type": "array"}],
 ]
 
 INSTANCE_POOL = [
